@@ -305,6 +305,24 @@ func init() {
 				}
 			}
 		}
+		// third family, asymmetric: a longer one-key script (several watermarks in a row, retractions) against a
+		// script of at most one event, in both roles. Long-vs-short is cheap (few interleavings) and reaches states
+		// such as "one input ended while it still buffers records and the other then sends watermarks only".
+		longOne := stream.GenScripts(stream.ScriptOpts{Keys: []int{1}, Times: []int{1, 2, 3}, MaxLen: r.Pick(3, 4), Retractions: true, UniqueID: true, Watermarks: true})
+		shortOne := stream.GenScripts(stream.ScriptOpts{Keys: []int{1}, Times: []int{1, 2, 3}, MaxLen: 1, UniqueID: true, Watermarks: true})
+		asym := 0
+		for _, k := range joinKinds {
+			for _, l := range longOne {
+				if len(l) < 3 {
+					continue
+				}
+				for _, s := range shortOne {
+					jobs = append(jobs, job{k, l, s}, job{k, s, l})
+					asym += 2
+				}
+			}
+		}
+		r.Extra["asymmetric_script_pairs"] = asym
 		r.Sharded(16, 1, func(shard, nshards int) {
 			for i := range jobs {
 				if i%nshards != shard {
